@@ -13,3 +13,18 @@ CO_OBJ_STR V_STR;
 uint8_t  *H_BUF;
 uint32_t  H_BUFSZ;
 uint32_t  H_SIZE;
+uint8_t   H_BK0, H_DK0;
+uint32_t G_TYPE_STATE; _Bool G_EXP_ON; uint32_t G_EXP_SIZE; void *G_EXP_BUF; uint32_t G_EXP_PARA;
+uint32_t G_RESET_N, G_READ_N, G_WRITE_N;
+CO_OBJ  *G_DROOT; uint16_t G_DNUM;
+uint32_t G_INIT_CNT, G_INIT_ALL;
+/* allocate the symbolic-size dictionary of the world and link it (pointers by assignment) */
+#include <stdlib.h>
+static void vw_dict_alloc(void)
+{
+    G_DROOT = malloc(((size_t)G_DNUM + 1) * sizeof(CO_OBJ));
+    __CPROVER_assume(G_DROOT != NULL);
+    V_NODE.Dict.Root = G_DROOT; V_NODE.Dict.Num = G_DNUM; V_NODE.Dict.Node = &V_NODE;
+    __CPROVER_assume(V_NODE.Dict.Max >= G_DNUM);
+    __CPROVER_assume(G_DROOT[G_DNUM].Key == 0);
+}
